@@ -3,7 +3,7 @@
    with printer.NewGoAsm on every run; these theorems are about the structured lines. *)
 From Avo Require Import Base.Prelude Base.Str.
 From stdpp Require Import gmap.
-From Avo Require Import Base.MaskSet Model.IR Model.RegFile Model.Data Model.Attr Model.AsmSyntax Model.PrintAsm Proofs.PrintProofs.
+From Avo Require Import Base.MaskSet Model.IR Model.RegFile Model.Data Model.Attr Model.AsmSyntax Model.PrintAsm Model.NodeSem Proofs.PrintProofs Proofs.PrintSem.
 Open Scope N_scope.
 Open Scope list_scope.
 
@@ -42,3 +42,19 @@ Proof.
   rewrite Hs. destruct (pf_isa f); reflexivity.
 Qed.
 Print Assumptions one_text_line_per_function.
+
+(* both statements at once, and what they are for: the instruction and label lines of the printed body,
+   in order, ARE the function's nodes without the comments (alignment, blank lines and comment lines
+   are all that is added) ... *)
+Theorem printed_body_is_the_function_without_comments : forall ns,
+  lines_code (body_lines ns [] true) = strip ns.
+Proof. intro ns. rewrite body_code. reflexivity. Qed.
+Print Assumptions printed_body_is_the_function_without_comments.
+
+(* ... so the printed body computes what the function computes, for every machine state type and every
+   instruction semantics (small-step semantics of Model/NodeSem.v: same terminal outcomes from every
+   start state) *)
+Theorem printed_body_computes_the_same : forall (S : Type) (exec : instr -> S -> S * ctl) ns,
+  same_behaviour S exec ns (lines_code (body_lines ns [] true)).
+Proof. exact printed_body_same_behaviour. Qed.
+Print Assumptions printed_body_computes_the_same.
